@@ -62,181 +62,7 @@ def written (l : List CL) : List String := l.map (·.name)
 /-- name-ordered, equal names allowed -/
 def Ordered (l : List CL) : Prop := l.Pairwise (fun a b => lt b.name a.name = false)
 
-/-! ## insert -/
-
-theorem insert_perm (c : CL) (l : List CL) : (insert lt c l).Perm (c :: l) := by
-  induction l with
-  | nil => exact List.Perm.refl _
-  | cons x r ih =>
-    simp only [insert]
-    split
-    · exact (List.Perm.cons x ih).trans (List.Perm.swap c x r)
-    · exact List.Perm.refl _
-
-theorem insert_ordered (h : StrictTotal lt) (c : CL) (l : List CL) (hl : Ordered lt l) : Ordered lt (insert lt c l) := by
-  induction l with
-  | nil => simp [insert, Ordered]
-  | cons x r ih =>
-    have hx := List.pairwise_cons.mp hl
-    simp only [insert]
-    split
-    · rename_i hlt
-      refine List.pairwise_cons.mpr ⟨?_, ih hx.2⟩
-      intro a ha
-      cases List.mem_cons.mp ((List.Perm.mem_iff (insert_perm lt c r)).mp ha) with
-      | inl e =>
-        subst e
-        -- x < c, so not c < x
-        cases hcx : lt a.name x.name with
-        | false => rfl
-        | true => have := h.trans _ _ _ hlt hcx; rw [h.irrefl] at this; cases this
-      | inr e => exact hx.1 a e
-    · rename_i hnlt
-      have hnlt' : lt x.name c.name = false := by simpa using hnlt
-      refine List.pairwise_cons.mpr ⟨?_, hl⟩
-      intro a ha
-      cases List.mem_cons.mp ha with
-      | inl e => subst e; exact hnlt'
-      | inr e =>
-        -- not a < x (ordered), not x < c: so not a < c
-        have hax := hx.1 a e
-        cases hac : lt a.name c.name with
-        | false => rfl
-        | true =>
-          -- a < c, ¬ x < c  ⇒  x ≠ a-name…; by totality either x = c, x > c
-          by_cases hxe : x.name = c.name
-          · rw [← hxe] at hac; rw [hac] at hax; cases hax
-          · rcases h.total _ _ hxe with h1 | h1
-            · rw [h1] at hnlt'; cases hnlt'
-            · have := h.trans _ _ _ hac h1; rw [this] at hax; cases hax
-
-theorem inserted_ordered (h : StrictTotal lt) (cs acc : List CL) (ha : Ordered lt acc) :
-    Ordered lt (cs.foldl (fun l c => insert lt c l) acc) := by
-  induction cs generalizing acc with
-  | nil => exact ha
-  | cons c r ih => exact ih _ (insert_ordered lt h c acc ha)
-
-theorem inserted_perm (cs acc : List CL) : (cs.foldl (fun l c => insert lt c l) acc).Perm (acc ++ cs) := by
-  induction cs generalizing acc with
-  | nil => simp
-  | cons c r ih =>
-    simp only [List.foldl_cons]
-    refine (ih _).trans ?_
-    refine (List.Perm.append_right r (insert_perm lt c acc)).trans ?_
-    simp only [List.cons_append]
-    exact List.perm_middle.symm
-
-/-! ## remove, with the walk that goes on over equal names -/
-
 /-- addresses are unique -/
 def DistinctIds (l : List CL) : Prop := (l.map (·.id)).Nodup
-
-theorem remove_mid (pre : List CL) (c : CL) (r : List CL) (ho : Ordered lt (pre ++ c :: r)) (hd : DistinctIds (pre ++ c :: r)) :
-    remove lt .untilSelfWhileNotGreater c (pre ++ c :: r) = pre ++ r := by
-  induction pre with
-  | nil => simp [remove, stepsOver]
-  | cons x p ih =>
-    have ho' := List.pairwise_cons.mp ho
-    have hd' : x.id ∉ (p ++ c :: r).map (·.id) ∧ ((p ++ c :: r).map (·.id)).Nodup := by
-      have : (x.id :: (p ++ c :: r).map (·.id)).Nodup := hd
-      exact List.nodup_cons.mp this
-    have hne : x.id ≠ c.id := by
-      intro e
-      apply hd'.1
-      simp [e]
-    have hlt : lt c.name x.name = false := ho'.1 c (by simp)
-    have hs : stepsOver lt .untilSelfWhileNotGreater c x = true := by simp [stepsOver, hne, hlt]
-    simp only [List.cons_append, remove, hs, if_true]
-    rw [ih ho'.2 hd'.2]
-
-/-! ## the pruning loop -/
-
-theorem prune_split (post pre : List CL) (fuel : Nat) (ho : Ordered lt (pre ++ post)) (hd : DistinctIds (pre ++ post))
-    (hf : post.length + 1 ≤ fuel) :
-    prune lt .untilSelfWhileNotGreater fuel (pre ++ post) pre.length = some (pre ++ post.filter (fun c => !c.dependent)) := by
-  induction post generalizing pre fuel with
-  | nil =>
-    cases fuel with
-    | zero => omega
-    | succ f => simp [prune]
-  | cons c r ih =>
-    cases fuel with
-    | zero => omega
-    | succ f =>
-      have hget : (pre ++ c :: r)[pre.length]? = some c := by simp
-      simp only [prune, hget]
-      have hf' : r.length + 1 ≤ f := by simp at hf; omega
-      cases hdep : c.dependent with
-      | true =>
-        simp only [if_true]
-        rw [remove_mid lt pre c r ho hd]
-        have ho2 : Ordered lt (pre ++ r) := by
-          refine List.Pairwise.sublist ?_ ho
-          exact List.Sublist.append_left (List.sublist_cons_self c r) pre
-        have hd2 : DistinctIds (pre ++ r) := by
-          refine List.Nodup.sublist ?_ hd
-          exact List.Sublist.map _ (List.Sublist.append_left (List.sublist_cons_self c r) pre)
-        rw [ih pre f ho2 hd2 hf']
-        simp [hdep]
-      | false =>
-        simp only [Bool.false_eq_true, if_false]
-        have e : pre ++ c :: r = (pre ++ [c]) ++ r := by simp
-        have hl : pre.length + 1 = (pre ++ [c]).length := by simp
-        rw [e, hl, ih (pre ++ [c]) f (by rw [← e]; exact ho) (by rw [← e]; exact hd) hf']
-        simp [hdep]
-
-/-- with the walk found in the tree after fix C17-2 the constructor's loop ends after at most `length + 1` rounds and
-    leaves exactly the non-dependent lists, in name order -/
-theorem build_current (h : StrictTotal lt) (cs : List CL) (hd : DistinctIds cs) :
-    build lt .untilSelfWhileNotGreater (cs.length + 1) cs
-      = some ((cs.foldl (fun l c => insert lt c l) []).filter (fun c => !c.dependent)) := by
-  unfold build
-  have hp := inserted_perm lt cs []
-  have ho := inserted_ordered lt h cs [] (by simp [Ordered])
-  have hd' : DistinctIds (cs.foldl (fun l c => insert lt c l) []) := by
-    unfold DistinctIds at *
-    exact (List.Perm.nodup_iff (List.Perm.map _ (by simpa using hp))).mpr hd
-  have hlen : (cs.foldl (fun l c => insert lt c l) []).length = cs.length := by simpa using hp.length_eq
-  have := prune_split lt (cs.foldl (fun l c => insert lt c l) []) [] (cs.length + 1) (by simpa using ho) (by simpa using hd') (by omega)
-  simpa using this
-
-/-- the walk `while( cl && *cl < *c )`: two lists of one name, the second dependent — `remove` gives up, the cursor stays: for every
-    amount of fuel the loop is still running (exp2cxx hangs: the defect fixed by C17-2) -/
-theorem prune_whileLess_hangs (hirr : ∀ a, lt a a = false) (a b : CL) (hn : a.name = b.name) (hi : a.id ≠ b.id)
-    (ha : a.dependent = false) (hb : b.dependent = true) : ∀ fuel, prune lt .whileLess fuel [a, b] 0 = none := by
-  have hrem : remove lt .whileLess b [a, b] = [a, b] := by
-    have h1 : stepsOver lt .whileLess b a = false := by simp [stepsOver, hn, hirr]
-    have h2 : stepsOver lt .whileLess b b = false := by simp [stepsOver, hirr]
-    simp [remove, h1, hi]
-  have h1 : ∀ fuel, prune lt .whileLess fuel [a, b] 1 = none := by
-    intro fuel
-    induction fuel with
-    | zero => rfl
-    | succ f ih => simp [prune, hb, hrem, ih]
-  intro fuel
-  cases fuel with
-  | zero => rfl
-  | succ f => simp [prune, ha, h1]
-
-/-! ## compstructs.cc does not depend on the order of insertion -/
-
-theorem written_order_independent (h : StrictTotal lt) (cs₁ cs₂ : List CL) (hp : cs₁.Perm cs₂) :
-    written ((cs₁.foldl (fun l c => insert lt c l) []).filter (fun c => !c.dependent))
-      = written ((cs₂.foldl (fun l c => insert lt c l) []).filter (fun c => !c.dependent)) := by
-  have o₁ := List.Pairwise.filter (fun c : CL => !c.dependent) (inserted_ordered lt h cs₁ [] (by simp [Ordered]))
-  have o₂ := List.Pairwise.filter (fun c : CL => !c.dependent) (inserted_ordered lt h cs₂ [] (by simp [Ordered]))
-  have p₁ : (cs₁.foldl (fun l c => insert lt c l) []).Perm cs₁ := by simpa using inserted_perm lt cs₁ []
-  have p₂ : (cs₂.foldl (fun l c => insert lt c l) []).Perm cs₂ := by simpa using inserted_perm lt cs₂ []
-  have pp := List.Perm.map (·.name) (List.Perm.filter (fun c : CL => !c.dependent) ((p₁.trans hp).trans p₂.symm))
-  unfold written
-  refine List.Perm.eq_of_pairwise (le := fun a b => lt b a = false) ?_ ?_ ?_ pp
-  · intro a b _ _ hab hba
-    by_cases e : a = b
-    · exact e
-    · rcases h.total a b e with t | t
-      · rw [t] at hba; cases hba
-      · rw [t] at hab; cases hab
-  · exact List.pairwise_map.mpr o₁
-  · exact List.pairwise_map.mpr o₂
 
 end StepModel.Collect
